@@ -512,3 +512,22 @@ func TestReplayRegressions(t *testing.T) {
 		ev.Eval()
 	}
 }
+
+// FuzzUTF7 (thorough tier): coverage-guided search over decoder inputs and
+// chunkings with the same oracles as the generated checks.
+func FuzzUTF7(f *testing.F) {
+	for _, s := range []string{"", "INBOX", "&-", "a&AOk-b", "&U,BTFw-", "&2D3eCg-", "&AOk", "&AOk-&AOk-", "&AEE-", "&ANg-", "&3ADYAA-", "~peter/mail/&U,BTFw-/&ZeVnLIqe-", "&AOkA", "&A-", "\x80", "&AOk=-"} {
+		f.Add([]byte(s), uint8(1), uint8(1))
+		f.Add([]byte(s), uint8(3), uint8(2))
+	}
+	f.Fuzz(func(t *testing.T, data []byte, src, dst uint8) {
+		if len(data) > 2000 {
+			return
+		}
+		ch := [][2]int{{int(src%8) + 1, int(dst%8) + 1}, {4096, 4096}}
+		checkDecode(t, string(data), ch)
+		if utf8.Valid(data) {
+			checkEncode(t, string(data), ch)
+		}
+	})
+}
